@@ -33,6 +33,7 @@ import (
 	"net"
 	"net/http"
 	"net/http/httptest"
+	"os"
 	"strings"
 	"sync"
 	"sync/atomic"
@@ -191,6 +192,16 @@ func New(cfg Config) *Gateway {
 // Addr is the gateway's listen address (host:port).
 func (g *Gateway) Addr() string { return g.Server.Listener.Addr().String() }
 
+// CloseIdle closes the kept-alive client connections, so that the next RoundTrip dials a fresh one.
+func (g *Gateway) CloseIdle() {
+	g.mu.Lock()
+	for _, cc := range g.idle {
+		cc.c.Close()
+	}
+	g.idle = nil
+	g.mu.Unlock()
+}
+
 // Close stops the gateway and every cluster added to it.
 func (g *Gateway) Close() {
 	g.mu.Lock()
@@ -312,6 +323,9 @@ func (g *Gateway) RoundTrip(raw []byte, method string, timeout time.Duration) (*
 		}
 		resp, reusable, gotBytes, err := g.roundTripOn(cc, raw, method, timeout)
 		if err != nil && reused && !gotBytes && attempt == 0 {
+			if debugClose {
+				fmt.Fprintf(os.Stderr, "e2e: client re-sends on a fresh connection after %v on a reused one (%s)\n", err, cc.c.LocalAddr())
+			}
 			cc.c.Close()
 			continue // stale kept-alive connection
 		}
@@ -352,6 +366,9 @@ func (g *Gateway) roundTripOn(cc *clientConn, raw []byte, method string, timeout
 		reusable = e == nil && berr == nil && !resp.Close && cc.br.Buffered() == 0
 	case <-time.After(50 * time.Millisecond):
 		reusable = false // the gateway answered without reading the request to its end; let the writer die with the connection
+		if debugClose {
+			fmt.Fprintf(os.Stderr, "e2e: client writer still busy 50 ms after the response (%s)\n", cc.c.LocalAddr())
+		}
 	}
 	return out, reusable, true, nil
 }
@@ -528,19 +545,42 @@ func (u *Upstream) accept() {
 	}
 }
 
+var debugClose = os.Getenv("E2E_DEBUG") != ""
+
+// closeGracefully ends a connection without a reset: closing a socket that still has unread bytes in its receive queue
+// makes the kernel send RST, and a reset can destroy response bytes the peer has not read yet (the relayed body is then
+// cut short although the stub wrote all of it). So: half-close the sending side, drain what the peer still sends for a
+// moment, then close.
+func closeGracefully(c net.Conn) {
+	if tc, ok := c.(*net.TCPConn); ok {
+		_ = tc.CloseWrite()
+		_ = tc.SetReadDeadline(time.Now().Add(200 * time.Millisecond))
+		_, _ = io.Copy(io.Discard, tc)
+	}
+	c.Close()
+}
+
 func (u *Upstream) serve(c net.Conn) {
 	defer u.wg.Done()
 	defer func() {
-		c.Close()
 		u.mu.Lock()
+		closed := u.closed
 		delete(u.open, c)
 		u.mu.Unlock()
+		if closed {
+			c.Close()
+		} else {
+			closeGracefully(c)
+		}
 	}()
 	cc := countingConn{c, &u.bytes}
 	br := bufio.NewReaderSize(cc, 64<<10)
 	for {
 		req, err := http.ReadRequest(br)
 		if err != nil {
+			if debugClose && err != io.EOF {
+				fmt.Fprintf(os.Stderr, "e2e: upstream %s closes %s: ReadRequest: %v (buffered %d)\n", u.ln.Addr(), c.RemoteAddr(), err, br.Buffered())
+			}
 			return
 		}
 		atomic.AddInt64(&u.requests, 1)
@@ -564,9 +604,15 @@ func (u *Upstream) serve(c net.Conn) {
 			return
 		}
 		if _, err := c.Write(rep.Bytes()); err != nil {
+			if debugClose {
+				fmt.Fprintf(os.Stderr, "e2e: upstream %s closes %s: Write: %v\n", u.ln.Addr(), c.RemoteAddr(), err)
+			}
 			return
 		}
 		if rep.CloseAfter || rep.NoLength || s.BodyErr != "" {
+			if debugClose && s.BodyErr != "" {
+				fmt.Fprintf(os.Stderr, "e2e: upstream %s closes %s: request body: %s\n", u.ln.Addr(), c.RemoteAddr(), s.BodyErr)
+			}
 			return
 		}
 	}
